@@ -49,6 +49,8 @@ pub struct SinkState {
     pub short_fired: usize,
     pub intr_fired: usize,
     pub flushes: usize,
+    /// bytes held when the first hard fault fired
+    pub len_at_first_hard: Option<usize>,
     intr_burst: usize,
 }
 
@@ -80,6 +82,9 @@ impl SimSink {
         if let Some(at) = self.plan.hard_at {
             if idx == at || (self.plan.persistent && idx > at) {
                 st.hard_fired += 1;
+                if st.len_at_first_hard.is_none() {
+                    st.len_at_first_hard = Some(st.data.len());
+                }
                 self.ctx.fault("sink.hard", idx as u64);
                 return Some(io::Error::new(self.plan.hard_kind, "simulated sink failure"));
             }
@@ -97,6 +102,9 @@ impl Write for SimSink {
             if let Some(at) = self.plan.hard_at {
                 if (idx == at || (self.plan.persistent && idx > at)) && !buf.is_empty() {
                     st.hard_fired += 1;
+                    if st.len_at_first_hard.is_none() {
+                        st.len_at_first_hard = Some(st.data.len());
+                    }
                     self.ctx.fault("sink.zero", idx as u64);
                     return Ok(0);
                 }
